@@ -873,8 +873,10 @@ pub fn quiescence_scenario(opts: ExecOpts) -> BoxedStrategy<Scenario> {
         vec(vec(pop, 1..8), 1..=3),
         vec(vec((vec(cop, 0..7), prop_oneof![5 => Just(true), 1 => Just(false)]), 1..=2), 1..=3),
         schedule(400),
+        vec(prop_oneof![2 => Just(false), 1 => Just(true)], 3),
+        vec(0u8..7, 3),
     )
-        .prop_map(move |(q, prefill, producers, mut streams, sched)| {
+        .prop_map(move |(q, prefill, producers, mut streams, sched, adds, add_pos)| {
             if q.flavour == Flavour::Mpmc {
                 streams.truncate(1);
             }
@@ -904,12 +906,21 @@ pub fn quiescence_scenario(opts: ExecOpts) -> BoxedStrategy<Scenario> {
                 progs.push(Prog { ops: ops.clone(), ret: true });
             }
             for (s, cons) in streams.iter().enumerate() {
-                for (ops, ret) in cons {
+                for (ci, (ops, ret)) in cons.iter().enumerate() {
                     let p = progs.len() as u8;
                     let idx = rx_table.iter().position(|x| *x == s).unwrap();
                     main.push(Op::Spawn { prog: p, tx: vec![], rx: vec![sel(idx, rx_table.len())] });
                     rx_table.remove(idx);
-                    progs.push(Prog { ops: ops.clone(), ret: *ret });
+                    let mut ops = ops.clone();
+                    // the only consumer of a broadcast stream may add a stream while the others run
+                    // (its conversions are dropped so that the handle keeps the add_stream method);
+                    // the new stream is not consumed before the probes
+                    if cons.len() == 1 && q.flavour == Flavour::Broadcast && adds[(s + ci) % adds.len()] {
+                        ops.retain(|o| !matches!(o, Op::IntoSingle { .. } | Op::WithCloneRx { .. }));
+                        let at = (add_pos[(s + ci) % add_pos.len()] as usize).min(ops.len());
+                        ops.insert(at, Op::AddStream { rx: 0 });
+                    }
+                    progs.push(Prog { ops, ret: *ret });
                 }
             }
             main.push(Op::JoinAll);
@@ -952,6 +963,16 @@ pub fn probe_scenario(opts: ExecOpts) -> BoxedStrategy<Scenario> {
             sc
         })
         .boxed()
+}
+
+/// on a move-out queue there is only one stream: an add_stream round becomes a clone round
+fn mpmc_round(r: &[Op], flavour: Flavour) -> Vec<Op> {
+    if flavour == Flavour::Mpmc && matches!(r.first(), Some(Op::AddStream { .. })) {
+        let unsub = matches!(r.get(1), Some(Op::UnsubRx { .. }));
+        vec![Op::WithCloneRx { rx: 0, unsub }]
+    } else {
+        r.to_vec()
+    }
 }
 
 // ---- churn scenarios (C16) -----------------------------------------------------------------
@@ -1004,7 +1025,7 @@ pub fn churn_scenario(opts: ExecOpts, rounds_max: usize) -> BoxedStrategy<Scenar
                 // their reclamation tokens keep up with the epoch ("keeps operating")
                 let mut ops: Vec<Op> = Vec::new();
                 for r in rounds {
-                    ops.extend(r.iter().cloned());
+                    ops.extend(mpmc_round(r, q.flavour));
                     ops.push(Op::TrySend { tx: 0 });
                     ops.push(Op::TryRecv { rx: 0 });
                 }
@@ -1069,7 +1090,7 @@ pub fn mem_churn_scenario(opts: ExecOpts, cycle_choices: &'static [u32]) -> Boxe
                     ret: false,
                 });
             }
-            let mut body: Vec<Op> = rounds.iter().flatten().cloned().collect();
+            let mut body: Vec<Op> = rounds.iter().flat_map(|r| mpmc_round(r, q.flavour)).collect();
             // the long-lived handles operate every cycle
             body.push(Op::TrySend { tx: 0 });
             body.push(Op::TryRecv { rx: 0 });
@@ -1095,6 +1116,33 @@ pub fn mem_churn_scenario(opts: ExecOpts, cycle_choices: &'static [u32]) -> Boxe
                 _ => sched,
             };
             Scenario { q, progs, sched, opts: o }
+        })
+        .boxed()
+}
+
+
+/// churn scenarios (many retirements, so that reclamation epochs are opened and the manager
+/// locks are taken often) with solo-run probes inserted at generated positions (C18)
+pub fn probe_churn_scenario(opts: ExecOpts) -> BoxedStrategy<Scenario> {
+    (churn_scenario(opts, 24), vec((any::<u16>(), any::<u16>(), 0u8..3), 2..8))
+        .prop_map(|(mut sc, probes)| {
+            for (psel, pos, kind) in probes {
+                let nprog = sc.progs.len() - 1;
+                if nprog == 0 {
+                    continue;
+                }
+                let p = 1 + ((psel as usize * nprog) >> 16);
+                let has_rx = sc.progs[p].ops.iter().any(|o| matches!(o, Op::TryRecv { .. } | Op::AddStream { .. }));
+                let op = match (has_rx, kind) {
+                    (true, 0) => Op::ProbeTryRecv { rx: 0 },
+                    (true, 1) => Op::ProbeTryView { rx: 0 },
+                    _ => Op::ProbeTrySend { tx: 0 },
+                };
+                let len = sc.progs[p].ops.len();
+                let at = (pos as usize * (len + 1)) >> 16;
+                sc.progs[p].ops.insert(at, op);
+            }
+            sc
         })
         .boxed()
 }
